@@ -342,7 +342,127 @@ def body_ideal(case, ctx):
                                            if tgt == "halfspace" else 0)))
 
 
+# ---------------------------------------------------------------------------
+@st.composite
+def reuse_case(draw):
+    n = draw(st.integers(1, 4))
+    shape = draw(gen.shapes(max_rank=2))
+    cnt = gen.prod(shape)
+    return dict(n=n, shape=shape, k1=draw(gen.klein_points(n, cnt)),
+                k2=draw(gen.klein_points(n, cnt)), k3=draw(gen.klein_point(n, rmax=0.9)),
+                q=draw(gen.klein_point(n, rmax=0.9)), g=draw(gen.klein_point(n, rmax=0.8)),
+                srcs=[draw(st.sampled_from(MODELS)) for _ in range(3)],
+                warm=draw(st.booleans()))
+
+
+def _reads_agree(ctx, P, K, Q, KQ, tag):
+    """every way of reading the object P describes the points K"""
+    ctx.close(tag + ": klein", P.coords("klein"), K, rtol=1e-9, atol=1e-10)
+    for m in ("poincare", "halfspace"):
+        rad = np.sqrt(np.sum(K * K, axis=-1))
+        hs = float(np.max(1.0 / (1 - rad), initial=1.0))
+        ctx.close(tag + ": " + m, P.coords(m), H.klein_to_model(K, m), rtol=1e-9 * hs,
+                  atol=1e-9 * hs)
+    hb = np.array(P.coords("hyperboloid"))
+    ctx.close(tag + ": hyperboloid (up to sheet)", hyp_sign_fix(hb), H.klein_to_hyperboloid(K),
+              rtol=1e-9, atol=1e-10)
+    d = np.array(P.distance(Q))
+    KQb = np.broadcast_to(KQ, K.shape)
+    dt = H.dist_klein(K, KQb)
+    ctx.small(tag + ": distance to a fixed point", (d - dt) / dist_tol(K, KQb, dt), 1.0,
+              d=d, d_true=dt)
+
+
+def body_reuse(case, ctx):
+    """one Point object used repeatedly: read, re-set through the coordinate setter of another
+    model, assign an item, transform - after every step all reads describe the current points"""
+    n, shape = case["n"], tuple(case["shape"])
+    K1 = np.array(case["k1"], dtype=float).reshape(shape + (n,))
+    K2 = np.array(case["k2"], dtype=float).reshape(shape + (n,))
+    K3 = np.array(case["k3"], dtype=float)
+    KQ = np.array(case["q"], dtype=float)
+    s1, s2, s3 = case["srcs"]
+    ctx.label("n=%d" % n, "rank=%d" % len(shape), "not-origin", "set-via=" + s2,
+              "n>=2-or-composite" if (n >= 2 or shape) else "")
+    Q = hyperbolic.Point(KQ.copy(), model="klein")
+    P = _build(K1, s1)
+    if case["warm"]:
+        ctx.label("read-before-set")
+        _reads_agree(ctx, P, K1, Q, KQ, "fresh object")
+    # the documented setter: coords(model, data)
+    P.coords(s2, H.klein_to_model(K2, s2))
+    _reads_agree(ctx, P, K2, Q, KQ, "after coords(%s, data)" % s2)
+    Kcur = K2.copy()
+    if shape:
+        idx = (0,) * len(shape)
+        P[idx] = _build(K3, s3)
+        Kcur[idx] = K3
+        ctx.label("item-assigned")
+        _reads_agree(ctx, P, Kcur, Q, KQ, "after item assignment")
+    # an isometry moves the object; the image's hyperboloid coordinates belong to the image
+    G = hyperbolic.Point(np.array(case["g"], dtype=float), model="klein").origin_to()
+    R = G @ P
+    kr = np.array(R.coords("klein"))
+    ctx.check(np.all(np.sum(kr * kr, axis=-1) < 1), "the image is in the ball")
+    ctx.close("image: hyperboloid coordinates are those of the image's Klein coordinates",
+              hyp_sign_fix(np.array(R.coords("hyperboloid"))), H.klein_to_hyperboloid(kr),
+              rtol=1e-8, atol=1e-9)
+    dR = np.array(R.distance(G @ Q))
+    KQb = np.broadcast_to(KQ, Kcur.shape)
+    dt = H.dist_klein(Kcur, KQb)
+    ctx.small("image: distances are preserved", (dR - dt) / (20 * dist_tol(Kcur, KQb, dt)), 1.0)
+    _reads_agree(ctx, P, Kcur, Q, KQ, "the original after being transformed")
+
+
+@st.composite
+def helper_case(draw):
+    n = draw(st.integers(1, 4))
+    k = draw(st.integers(1, 4))
+    stack = draw(st.sampled_from([[], [], [2], [1], [2, 2], [3]]))
+    return dict(n=n, k=k, stack=stack, pts=draw(gen.klein_points(n, k * gen.prod(stack))),
+                scales=[draw(gen.scalars_pm()) for _ in range(k * gen.prod(stack))],
+                r=draw(st.one_of(fl(-6.0, 6.0), st.sampled_from([0.0, -1.0, 1.0, -1e-3]))))
+
+
+def body_helpers(case, ctx):
+    """the module-level helper functions, row and column layouts, stacks of matrices"""
+    n, k, stack = case["n"], case["k"], tuple(case["stack"])
+    K = np.array(case["pts"], dtype=float).reshape(stack + (k, n))
+    S = np.array(case["scales"], dtype=float).reshape(stack + (k, 1))
+    X = np.concatenate([np.ones(stack + (k, 1)), K], axis=-1) * S
+    ctx.label("n=%d" % n, "stack-rank=%d" % len(stack), "not-origin", "n>=2-or-composite")
+    ctx.close("kleinian_coords(rows)", hyperbolic.kleinian_coords(X.copy()), K, rtol=1e-12,
+              atol=1e-12)
+    Xc = np.ascontiguousarray(np.swapaxes(X, -1, -2))
+    got = np.asarray(hyperbolic.kleinian_coords(Xc.copy(), column_vectors=True))
+    ctx.check(got.shape == stack + (n, k), "kleinian_coords(columns): shape", got=got.shape,
+              want=stack + (n, k))
+    ctx.close("kleinian_coords(columns)", got, np.swapaxes(K, -1, -2), rtol=1e-12, atol=1e-12)
+    want_h = H.klein_to_hyperboloid(K)
+    ctx.close("hyperboloid_coords(rows) up to sheet",
+              hyp_sign_fix(hyperbolic.hyperboloid_coords(X.copy())), want_h, rtol=1e-9, atol=1e-10)
+    hc = np.asarray(hyperbolic.hyperboloid_coords(Xc.copy(), column_vectors=True))
+    ctx.check(hc.shape == stack + (n + 1, k), "hyperboloid_coords(columns): shape", got=hc.shape)
+    ctx.close("hyperboloid_coords(columns) up to sheet",
+              hyp_sign_fix(np.swapaxes(hc, -1, -2)), want_h, rtol=1e-9, atol=1e-10)
+    # signed distance along the first axis <-> Klein coordinate (used by point_along)
+    r = float(case["r"])
+    a = float(hyperbolic.hyp_to_affine_dist(r))
+    ctx.close("hyp_to_affine_dist(r) = tanh r (signed)", a, math.tanh(r), rtol=1e-12, atol=1e-15)
+    o = hyperbolic.Point.get_origin(n)
+    e = np.zeros(n)
+    e[0] = a
+    if abs(a) < 1:
+        ctx.small("the Klein point (hyp_to_affine_dist(r), 0, ..) is at distance |r| from the "
+                  "origin", float(o.distance(hyperbolic.Point(e, model="klein"))) - abs(r),
+                  float(dist_tol(np.zeros(n), e, abs(r))) + 1e-9 * math.cosh(r) ** 2 * abs(r))
+
+
 LAWS = [
+    Law("reused_point_objects", reuse_case(), body_reuse, nt_cloud, quick=200, thorough=2000,
+        shards=(1, 4)),
+    Law("module_level_helpers", helper_case(), body_helpers, nt_cloud, quick=200, thorough=1500,
+        shards=(1, 3)),
     Law("roundtrip_all_pairs", cloud_case(), body_roundtrip, nt_cloud, quick=250,
         thorough=2500, shards=(2, 8)),
     Law("metric_agrees_in_every_model", pair_case(), body_metric, nt_cloud, quick=250,
